@@ -4,6 +4,8 @@
 pub mod c01;
 pub mod c02;
 pub mod c04;
+pub mod c09;
+pub mod store;
 pub mod hist;
 pub mod memkv;
 pub mod pq;
